@@ -133,7 +133,10 @@ def diff_state(a, b):
         if x != y:
             out.append('input %s modified' % k)
     for (k, x), (_, y) in zip(a[1], b[1]):
-        if x != y:
+        if x != y and k.startswith('F_'):
+            # a filter object may keep private notes; whether they matter is decided by comparing results
+            out.append('filter object %s changed: %s' % (k, sorted(set(y) ^ set(x))[:3]))
+        elif x != y:
             out.append('tokenizer %s changed from %s to %s' % (k, dict(x[1]), dict(y[1])))
     if a[2] != b[2]:
         out.append('default q-gram tokenizer changed')
@@ -255,6 +258,13 @@ def build_alphabet(reduced=False):
                                                        n_jobs=2, show_progress=False))(fk))
         add('%s.filter_pair(missing) [shared filter object]' % fk,
             (lambda fk: lambda O: O[fk].filter_pair(None, 'a b'))(fk))
+        # the same object on values whose tokens no earlier table contained
+        add('%s.filter_pair(unseen tokens) [shared filter object]' % fk,
+            (lambda fk: lambda O: O[fk].filter_pair('lemon tart pie', 'tart lemon pie'))(fk))
+        if not reduced:
+            add('%s.filter_candset(C2,A2,B2) [shared filter object]' % fk,
+                (lambda fk: lambda O: O[fk].filter_candset(O['C2'], 'l_id', 'r_id', O['A2'], O['B2'], 'id', 'id', 's', 's',
+                                                           show_progress=False))(fk))
     # pair-level token order: a pair whose verdict depends on the order, and a call that would bump the
     # frequencies of its non-shared tokens if they were remembered between calls
     for Fn in ('PrefixFilter', 'PositionFilter', 'SuffixFilter'):
@@ -361,7 +371,8 @@ def check_step(hist, name, O, sd, viol, reduced=False):
     inputs_changed = [x for x in d if x.startswith('input')]
     if inputs_changed:
         probs.append('; '.join(inputs_changed))
-    other = [x for x in d if not x.startswith('input') and not x.startswith('library module globals')]
+    other = [x for x in d if not x.startswith('input') and not x.startswith('library module globals')
+             and not x.startswith('filter object')]
     if other and r[0] == 'ok':
         probs.append('call returned normally but ' + '; '.join(other))
     if r != isolated(name, sd, reduced):
